@@ -242,6 +242,23 @@ CHECKS['C08'] = dict(
     note='registry operations by their C03 contracts; get_address_and_nsec_records/_dns_addresses assumed by contract (checked only '
          'by the bounded harness); an announcement task still sleeping when its service is unregistered (register-then-unregister '
          'within 450 ms) can follow the last goodbye: outside the claim; A5 await model')
+CHECKS['C02'] = dict(
+    text='Proved for ALL byte strings (no length bound), function by function: TOTALITY - each of the ten decoder functions raises at most '
+         'IndexError or IncomingDecodeError (a safety obligation for every subscript, slice, dict/list access and explicit raise in the '
+         'real bodies), and DNSIncoming.__init__ and answers() catch exactly these: their contracts say "raises nothing" and are '
+         'discharged; BOUNDED RECURSION - _decode_labels_at_offset follows a compression pointer (one more Python frame) only while '
+         'fewer than 128 have been followed (call-site obligation, refuted on the tree before the F3 repair and replayed with a witness '
+         'datagram); every name returned by _read_name has at most 253 characters and so has every question and record the message '
+         'holds; valid implies a complete header. NOT proved, bounded stand-in only (labelled so in the evidence): faithfulness against '
+         'an independent strict RFC 1035 parser written in contracts/c02.py, and absence of exceptions once more natively - every '
+         'byte string over a 7-byte adversarial alphabet up to length 5 (7 thorough) behind a query and a response header, pointer '
+         'chains up to depth 4000, small compression graphs, and every truncation and bit flip of encoder-made messages (40 000 / '
+         '2 000 000 parses).',
+    design_ref='DESIGN.md section 4 C02 and 9',
+    note='_read_bitmap (NSEC window loop) is an ASSUMED contract (raises only IndexError, moves only the offset); bytes.decode and '
+         'str.join uninterpreted; record constructors assumed not to raise for the decoder\'s argument types; RecursionError is '
+         'excluded through the hop bound (depth <= hops + 1), not modelled as a raise; the work bound ("fixed budget") is not '
+         'proved: loop termination variants were not added')
 NOT_APPLICABLE = {
     'C07': 'end-to-end liveness over several hosts and lossy delivery: no per-function contract can express it '
            '(DESIGN.md section 6)',
